@@ -125,6 +125,9 @@ trait Driver {
   spec fn tablet(&self) -> bool;                 // last delivered switch event was On
   spec fn just_switched(&self) -> bool;          // the previous driver call delivered a switch event
   spec fn interrupts(&self) -> nat;              // Interrupted results since the last device event
+  // environment assumption (finite bursts): how many events the device will still hand out before it next answers Busy; a measure for the drain loops only
+  spec fn kb_left(&self) -> nat;
+  spec fn tab_left(&self) -> nat;
 
   fn register_poll(&mut self) -> (r: Result<Self::PollRegistry, String>)
     requires
@@ -154,9 +157,10 @@ trait Driver {
     ensures (r matches Err(e) ==> final(self).failed() && final(self).last_error() == e@), r is Ok ==> !final(self).failed(),
       final(self).sends() == old(self).sends(), final(self).tablet() == old(self).tablet(), !final(self).just_switched(),
       final(self).tab_pending() == old(self).tab_pending(), final(self).interrupts() == old(self).interrupts(),
-      match r { Ok(Next::One(e)) => final(self).kb_pending() == old(self).kb_pending()
+      final(self).tab_left() == old(self).tab_left(),
+      match r { Ok(Next::One(e)) => final(self).kb_pending() == old(self).kb_pending() && final(self).kb_left() < old(self).kb_left()
                                     && final(self).reads_live() == (if old(self).tablet() { old(self).reads_live() } else { old(self).reads_live().push(e) }),
-                Ok(Next::Busy) => !final(self).kb_pending() && final(self).reads_live() == old(self).reads_live(),
+                Ok(Next::Busy) => !final(self).kb_pending() && final(self).reads_live() == old(self).reads_live() && final(self).kb_left() == old(self).kb_left(),
                 _ => final(self).reads_live() == old(self).reads_live() };
   fn next_tablet(&mut self) -> (r: Result<Next<TableModeEvent>, String>)
     requires
@@ -164,10 +168,10 @@ trait Driver {
       !old(self).failed(),
     ensures (r matches Err(e) ==> final(self).failed() && final(self).last_error() == e@), r is Ok ==> !final(self).failed(),
       final(self).sends() == old(self).sends(), final(self).reads_live() == old(self).reads_live(),
-      final(self).kb_pending() == old(self).kb_pending(), final(self).interrupts() == old(self).interrupts(),
-      match r { Ok(Next::One(TableModeEvent::On)) => final(self).tablet() && final(self).just_switched() && final(self).tab_pending() == old(self).tab_pending(),
-                Ok(Next::One(TableModeEvent::Off)) => !final(self).tablet() && final(self).just_switched() && final(self).tab_pending() == old(self).tab_pending(),
-                Ok(Next::Busy) => !final(self).tab_pending() && final(self).tablet() == old(self).tablet() && !final(self).just_switched(),
+      final(self).kb_pending() == old(self).kb_pending(), final(self).interrupts() == old(self).interrupts(), final(self).kb_left() == old(self).kb_left(),
+      match r { Ok(Next::One(TableModeEvent::On)) => final(self).tablet() && final(self).just_switched() && final(self).tab_pending() == old(self).tab_pending() && final(self).tab_left() < old(self).tab_left(),
+                Ok(Next::One(TableModeEvent::Off)) => !final(self).tablet() && final(self).just_switched() && final(self).tab_pending() == old(self).tab_pending() && final(self).tab_left() < old(self).tab_left(),
+                Ok(Next::Busy) => !final(self).tab_pending() && final(self).tablet() == old(self).tablet() && !final(self).just_switched() && final(self).tab_left() == old(self).tab_left(),
                 _ => final(self).tablet() == old(self).tablet() && !final(self).just_switched() };
   fn send(&mut self, evs: &Vec<Event>) -> (r: Result<(), String>)
     requires
@@ -178,7 +182,8 @@ trait Driver {
     ensures (r matches Err(e) ==> final(self).failed() && final(self).last_error() == e@ && final(self).sends() == old(self).sends()),
       r is Ok ==> !final(self).failed() && final(self).sends() == old(self).sends().push(evs@),
       final(self).reads_live() == old(self).reads_live(), final(self).kb_pending() == old(self).kb_pending(), final(self).tab_pending() == old(self).tab_pending(),
-      final(self).tablet() == old(self).tablet(), !final(self).just_switched(), final(self).interrupts() == old(self).interrupts();
+      final(self).tablet() == old(self).tablet(), !final(self).just_switched(), final(self).interrupts() == old(self).interrupts(),
+      final(self).kb_left() == old(self).kb_left(), final(self).tab_left() == old(self).tab_left();
 }
 
 // the loop invariant, shared by the nested loops (a loop body sees only its invariants), one predicate per property
@@ -290,6 +295,7 @@ fn do_remapping_loop_one_device(driver: &mut impl Driver, layout: Layout, verbos
 
       match driver.poll(&mut poll, timeout)? {
         PollResult::TimedOut => {
+          let ghost outs_t0 = outs; let ghost exp_t0 = exp; let ghost held_t0 = mapper.held_view();
           match working_repeat {
             WorkingRepeat::Idle => {
               // Well that's weird. I guess just keep going?
@@ -348,6 +354,10 @@ fn do_remapping_loop_one_device(driver: &mut impl Driver, layout: Layout, verbos
               }
             }
           };
+          proof {
+            //@ C11 | a time-out while a repeat is in force (the switch is then off) writes the chord of that repeat, once; any other time-out writes nothing
+            assert(match exp_t0 { Some(rq) => driver.sends() == s0 + outs_t0.push(chord(rq.keys, held_t0)), None => driver.sends() == s0 + outs_t0 });
+          }
         },
         PollResult::Interrupted => {
           if verbose { eprintln!("poll() interrupted"); }
@@ -399,6 +409,8 @@ fn do_remapping_loop_one_device(driver: &mut impl Driver, layout: Layout, verbos
                   ensures
                     //@ C10 | the keyboard is drained until Busy before anything else happens
                     !driver.kb_pending(),
+                  //@ C10 C11 C12 | ... and no further: once the keyboard has answered Busy the loop goes back to waiting (a loop that keeps reading an idle device never serves the timer or the switch again)
+                  decreases driver.kb_left(), (if driver.kb_pending() { 1nat } else { 0nat }),
                 { //@ | body
                   broadcast use group_instant_axioms;
                   match driver.next_keyboard()? {
@@ -430,6 +442,10 @@ fn do_remapping_loop_one_device(driver: &mut impl Driver, layout: Layout, verbos
 
                         if !evs_out.is_empty() {
                           driver.send(&evs_out)?;
+                        }
+                        proof {
+                          //@ C10 | the output of the step just made has been written, unless it is empty
+                          assert(driver.sends() == s0 + outs);
                         }
 
                         working_repeat = match step_out.repeat {
@@ -475,6 +491,8 @@ fn do_remapping_loop_one_device(driver: &mut impl Driver, layout: Layout, verbos
                   ensures
                     //@ C10 | the tablet switch is drained until Busy
                     !driver.tab_pending(),
+                  //@ C10 C11 C12 | ... and no further: once the switch has answered Busy the loop goes back to waiting
+                  decreases driver.tab_left(), (if driver.tab_pending() { 1nat } else { 0nat }),
                 { //@ | body
                   match driver.next_tablet()? {
                     Next::Busy => {
@@ -500,6 +518,10 @@ fn do_remapping_loop_one_device(driver: &mut impl Driver, layout: Layout, verbos
                           if !release_events.is_empty() {
                             driver.send(&release_events)?;
                           }
+                          proof {
+                            //@ C12 | the releases of everything that was held have been written at once, before anything else is read
+                            assert(driver.sends() == s0 + outs);
+                          }
                         },
                         Off => {
                           in_tablet_mode = false;
@@ -515,6 +537,10 @@ fn do_remapping_loop_one_device(driver: &mut impl Driver, layout: Layout, verbos
                           }
                           if !release_events.is_empty() {
                             driver.send(&release_events)?;
+                          }
+                          proof {
+                            //@ C12 | the releases of everything that was held have been written at once, before anything else is read
+                            assert(driver.sends() == s0 + outs);
                           }
                         }
                       }
